@@ -35,7 +35,7 @@ inductive Exit | drop | unlock | forget | panic | ret
 inductive BodyStep
   | write (pos : Nat) (v : Nat)   -- through position `pos` (declared order) of the guard / closure argument
   | read (pos : Nat)
-  | dbg (c : Nat)                 -- `format!("{:?}", collection c)` while holding
+  | dbg (c : Nat) (bomb : Option LockId := none)  -- `format!("{:?}", collection c)` while holding; `bomb`: the payload of that lock panics in its own `Debug`
   | getKey                        -- `ThreadKey::get()` while holding (dropped at once if obtained)
   | isPoisoned (c : Nat)
   deriving DecidableEq, Repr, Inhabited
@@ -52,7 +52,7 @@ structure Session where
 inductive Stmt
   | ses (s : Session)
   | get | dropKey | forgetKey
-  | dbg (c : Nat) | isPoisoned (c : Nat) | clearPoison (c : Nat)
+  | dbg (c : Nat) (bomb : Option LockId := none) | isPoisoned (c : Nat) | clearPoison (c : Nat)
   | tryNew (kind : Nat) (s : Shape)      -- `try_new` of a boxed (0) / ref (1) / retrying (2) collection over `s`
   deriving Repr, Inhabited
 
@@ -88,29 +88,35 @@ def guardDrop (m : Mode) : List GuardItem → Bool → Prog Unit Bool
 /-! ### Debug -/
 
 /-- `Debug` of a leaf: `try_lock_no_key` / `try_read_no_key`, the value is formatted, the
-`MutexRef` / `RwLockReadRef` is dropped; `<locked>` if the try fails. -/
-def debugLeaf (x : LockId) (m : Mode) : Prog Unit Unit :=
+`MutexRef` / `RwLockReadRef` is dropped; `<locked>` if the try fails. `bomb`: the payload's own
+`Debug` impl panics (user code): the transient hold is released by the `*Ref`'s destructor
+while that panic unwinds (a fault in this release is a panic during unwinding: abort). -/
+def debugLeaf (x : LockId) (m : Mode) (bomb : Bool := false) : Prog Unit Unit :=
   op (.acq m false x) fun r =>
     match r with
-    | .ok => op (.access x none) fun _ => op (.rel m x) fun r' =>
+    | .ok => op (.access x none) fun _ =>
+        if bomb then
+          op (.mark mkUserPanic) fun _ => op (.rel m x) fun r' =>
+            match r' with | .panic => abort | _ => unwind ()
+        else op (.rel m x) fun r' =>
                match r' with | .panic => unwind () | _ => done ()
     | .no => done ()
     | .panic => unwind ()
 
 mutual
 /-- `impl Debug` of every lock and collection type. -/
-def debugFmt : Shape → Prog Unit Unit
-  | .mutex x => debugLeaf x .excl
-  | .rwlock x => debugLeaf x .shared
-  | .seq ss => debugFmtL ss
-  | .poisonable _ s => debugFmt s          -- derived: `inner`, then the flag
+def debugFmt (b : Option LockId) : Shape → Prog Unit Unit
+  | .mutex x => debugLeaf x .excl (b == some x)
+  | .rwlock x => debugLeaf x .shared (b == some x)
+  | .seq ss => debugFmtL b ss
+  | .poisonable _ s => debugFmt b s        -- derived: `inner`, then the flag
   | .boxed _ => done ()                    -- prints the raw pointer field only
-  | .refc s => debugFmt s
-  | .retry s => debugFmt s                 -- derived
-  | .owned _ s => debugFmt s               -- derived
-def debugFmtL : List Shape → Prog Unit Unit
+  | .refc s => debugFmt b s
+  | .retry s => debugFmt b s               -- derived
+  | .owned _ s => debugFmt b s             -- derived
+def debugFmtL (b : Option LockId) : List Shape → Prog Unit Unit
   | [] => done ()
-  | s :: ss => Prog.bind (debugFmt s) fun _ => debugFmtL ss
+  | s :: ss => Prog.bind (debugFmt b s) fun _ => debugFmtL b ss
 end
 
 /-! ### sessions -/
@@ -131,9 +137,9 @@ def bodySteps (C : Ctx) (S : Shape) : List BodyStep → Prog Unit Unit
     op (.access ((declLeaves S).getD pos 0) (some v)) fun _ => bodySteps C S bs
   | .read pos :: bs =>
     op (.access ((declLeaves S).getD pos 0) none) fun _ => bodySteps C S bs
-  | .dbg c :: bs =>
+  | .dbg c b :: bs =>
     op (.mark mkBeginNonAcq) fun _ =>
-      bindX (debugFmt (C.shape c))
+      bindX (debugFmt b (C.shape c))
         (fun _ => op (.mark mkEndCall) fun _ => unwind ())
         (fun _ => op (.mark mkEndCall) fun _ => bodySteps C S bs)
   | .getKey :: bs =>
@@ -268,9 +274,9 @@ def stmt (C : Ctx) (s : Stmt) (u : UserSt) : Prog Unit UserSt :=
   | .forgetKey =>
     if u.keys = 0 then op (.mark mkOutNoKey) fun _ => done u
     else op .keyForget fun _ => op (.mark mkOutOk) fun _ => done { u with keys := u.keys - 1 }
-  | .dbg c =>
+  | .dbg c b =>
     op (.mark mkBeginNonAcq) fun _ =>
-      bindX (debugFmt (C.shape c))
+      bindX (debugFmt b (C.shape c))
         (fun _ => op (.mark mkEndCall) fun _ => op (.mark mkOutPanic) fun _ => done u)
         (fun _ => op (.mark mkEndCall) fun _ => op (.mark mkOutOk) fun _ => done u)
   | .isPoisoned c =>
